@@ -66,13 +66,18 @@ def resHandle : Res → Option Handle
 
 /-! ## maildir.c -/
 
-/-- `maildir_genname`: the descriptor of the newly created file and its name. `fuel` bounds the
-retries on EEXIST (C07: the loop ends because only finitely many names exist). -/
+/-- `count` is an `unsigned int` in `maildir_genname`: `count++` wraps at `2 ^ 32`, `%u` prints the wrapped value. -/
+def gennameWrap : Nat := 2 ^ Gen.gennameCountBits
+
+/-- `maildir_genname`: the descriptor of the newly created file and its name.  The C loop is `for (;;)`: it
+ends with a name that does not fit (ENAMETOOLONG), with an error other than EEXIST, or with success - there
+is no retry bound.  `fuel` bounds the retries on EEXIST in the model; `count` is the number of increments
+so far, the counter of the C code is `count % gennameWrap` (what `%u` prints). -/
 def genname (env : PEnv) (md : Maildir) (flags : Option Bytes) : Nat → Nat → Prog (Option (Handle × Bytes))
   | 0, _ => pure none
   | fuel + 1, count =>
     let count := count + 1
-    let name := decimalInt env.now ++ [46] ++ decimal env.pid ++ [95] ++ decimal count ++ [46] ++ env.host ++ flags.getD []
+    let name := decimalInt env.now ++ [46] ++ decimal env.pid ++ [95] ++ decimal (count % gennameWrap) ++ [46] ++ env.host ++ flags.getD []
     if name.length ≥ NAME_MAX1 then pure none
     else
       match md.dirH with
@@ -84,8 +89,14 @@ def genname (env : PEnv) (md : Maildir) (flags : Option Bytes) : Nat → Nat →
         | .err e => if e == "EEXIST" then genname env md flags fuel count else pure none
         | _ => pure none
 
+/-- The number of attempts the model makes: the bound of the C loop if it has one (`Gen.gennameLoopBound`,
+regenerated from maildir.c; `none` = `for (;;)`), else one full cycle of the 32-bit counter - after
+`gennameWrap` consecutive EEXIST answers every name the loop can ever produce has been tried once, and the
+C code goes on trying the same names again (it never gives up by itself). -/
+def gennameAttempts : Nat := Gen.gennameLoopBound.getD gennameWrap
+
 def gennameStart (env : PEnv) (md : Maildir) (flags : Option Bytes) : Prog (Option (Handle × Bytes)) :=
-  genname env md flags 4096 (env.random % Gen.gennameModulus)
+  genname env md flags gennameAttempts (env.random % Gen.gennameModulus)
 
 /-- `maildir_opendir`. -/
 def maildirOpendir (md : Maildir) (path : Bytes) : Prog (Maildir × Bool) := do
@@ -341,6 +352,35 @@ def messageGetFd (env : PEnv) (ms : MsgSt) (part : Option Msg) (dobody : Bool) :
 
 /-! ## util.c -/
 
+/-! ### `<sys/wait.h>` on the raw wait status (glibc `bits/waitstatus.h`), and `exec()`'s mapping of it -/
+
+/-- `WIFEXITED(status)`: `(status & 0x7f) == 0`. -/
+def wifexited (status : Nat) : Bool := status % 128 == 0
+/-- `WEXITSTATUS(status)`: `(status & 0xff00) >> 8`. -/
+def wexitstatus (status : Nat) : Nat := (status / 256) % 256
+/-- `WIFSIGNALED(status)`: `((signed char)((status & 0x7f) + 1) >> 1) > 0`, i.e. the low seven bits are neither 0
+(exited) nor 0x7f (stopped). -/
+def wifsignaled (status : Nat) : Bool := status % 128 != 0 && status % 128 != 127
+/-- `WTERMSIG(status)`: `status & 0x7f`. -/
+def wtermsig (status : Nat) : Nat := status % 128
+
+/-- The tail of `exec()` (util.c) after a successful `waitpid`:
+```
+int error = 1;
+if (WIFEXITED(status)) { error = WEXITSTATUS(status); if (error == 127) error = -1; }
+if (WIFSIGNALED(status)) error = 128 + WTERMSIG(status);
+```
+(a stopped child - not reported by `waitpid(pid, &status, 0)` - would leave the initial value 1). -/
+def execStatus (status : Nat) : Int :=
+  let error : Int := 1
+  let error : Int :=
+    if wifexited status then (if wexitstatus status == 127 then -1 else (wexitstatus status : Int)) else error
+  if wifsignaled status then ((128 + wtermsig status : Nat) : Int) else error
+
+/-- The child of `exec()`: `execvp(argv[0], argv); warn(...); _exit(127);` - whatever the reason `execvp` fails for
+(ENOENT, EACCES, ENOTDIR, ENOEXEC, ...), the child exits with this status, which the parent maps to -1. -/
+def execvpFailedStatus : Nat := 127
+
 /-- `exec(argv, fdin)`: `> 0` exited non-zero / signalled, `0` success, `< 0` fatal. -/
 def execP (fdin : Option Handle) : Prog Int := do
   let dn ← (match fdin with
@@ -358,18 +398,25 @@ def execP (fdin : Option Handle) : Prog Int := do
       | .ok _ => do
         let w ← call .waitpid
         match w with
-        | .ok status =>
-          -- raw wait status: exited = low 7 bits zero; signalled otherwise
-          if status % 128 == 0 then
-            let code := (status / 256) % 256
-            pure (if code == 127 then (-1 : Int) else (code : Int))
-          else pure ((128 + status % 128 : Nat) : Int)
+        | .ok status => pure (execStatus status)      -- the raw wait status
         | _ => pure (-1 : Int)
       | _ => pure (-1 : Int))
     match devnull with
     | some h => let _ ← call (.close h)
     | none => pure ()
     pure res
+
+/-- The value `exec()` derives from what `fork`/`waitpid` report: 0 for a clean exit, the exit
+code for a non-zero exit other than 127, -1 for 127, 128 + signal for a signalled child, and -1
+when /dev/null cannot be opened or `fork`/`waitpid` fail. -/
+def execValue (devnullOk : Bool) (forkRes waitRes : Res) : Int :=
+  if !devnullOk then -1
+  else match forkRes with
+    | .ok _ =>
+      match waitRes with
+      | .ok status => execStatus status
+      | _ => -1
+    | _ => -1
 
 /-! ## match.c: matches_exec -/
 
